@@ -396,11 +396,22 @@ class StreamReader:
         while not_enough:
             while self._buffer and not_enough:
                 offset = self._buffer_offset
-                ichar = self._buffer[0].find(separator, offset) + 1
+                # How much of this piece to take: up to the separator or all (-1)
+                take = -1
+                ichar = 0
+                if seplen > 1 and chunk:
+                    # The separator may lie across two buffered pieces
+                    carry = chunk[1 - seplen :]
+                    window = carry + self._buffer[0][offset : offset + seplen - 1]
+                    if (pos := window.find(separator)) >= 0:
+                        ichar = 1
+                        take = pos + seplen - len(carry)
+                if not ichar:
+                    ichar = self._buffer[0].find(separator, offset) + 1
+                    if ichar:
+                        take = ichar - offset + seplen - 1
                 # Read from current offset to found separator or to the end.
-                data = self._read_nowait_chunk(
-                    ichar - offset + seplen - 1 if ichar else -1
-                )
+                data = self._read_nowait_chunk(take)
                 chunk += data
                 chunk_size += len(data)
                 if ichar:
